@@ -277,7 +277,9 @@ func TestVerifC07_ProcInteractive(t *testing.T) {
 			if _, ok := s.WaitFor(0, func(st *Status) bool { return len(st.Selected) == 0 || true }); !ok {
 				t.Fatalf("no answer after %s", a)
 			}
-			if st, ok := s.WaitFor(1000, func(st *Status) bool { return len(st.Selected) == sel.Count() && (len(results) == 0 || st.Position == cur.Cy) }); !ok {
+			if st, ok := s.WaitFor(1000, func(st *Status) bool {
+				return len(st.Selected) == sel.Count() && (len(results) == 0 || st.Position == cur.Cy)
+			}); !ok {
 				t.Fatalf("after %v: selection/position do not settle: %s", history, describe(st))
 			}
 		}
